@@ -79,6 +79,35 @@ theorem common_exact (a b : DurTy) (h : PairTyOk a b) (x y : Int) (hin : PairIn 
   · unfold Spec.val; push_cast; rw [mul_assoc]; erw [e1]
   · unfold Spec.val; push_cast; rw [mul_assoc]; erw [e2]
 
+/-- The converting constructor `To(From)` (also the one of `time_point`, which converts `time_since_epoch()`), when it takes
+    part in overload resolution (`ratio_divide<Period2, period>::den == 1`): no overflow, and the converted count denotes the
+    same number of seconds. -/
+theorem convert_exact (dst frm : DurTy) (h : CastTyOk dst frm) (hden : cfD frm.per dst.per = 1) (c : Int)
+    (hc : frm.rep.inR c = true) (hres : dst.rep.inR (c * cfN frm.per dst.per) = true) :
+    convert dst frm c = .ok (c * cfN frm.per dst.per) ∧
+      Spec.val dst.per.toRat (c * cfN frm.per dst.per) = Spec.val frm.per.toRat c := by
+  obtain ⟨hto, hfrm, hp, hq, hdiv⟩ := h
+  obtain ⟨hN, _, hN', _, _⟩ := cf_facts frm.per dst.per hp hq
+  have hr := cf_rat frm.per dst.per hp hq
+  have hQ := toRat_pos dst.per hq
+  constructor
+  · unfold convert
+    rw [castCtx_eq dst frm hto hfrm hp hq hdiv, hden]
+    simp only [bind, Except.bind]
+    exact convertCore_eq dst.rep hto _ hN (by have := hdiv.1; omega) c (repOk_sub hfrm c hc) hres
+  · rw [hden] at hr
+    have e : (cfN frm.per dst.per : ℚ) = frm.per.toRat / dst.per.toRat := by simpa using hr
+    unfold Spec.val
+    push_cast
+    rw [e]
+    field_simp
+
+-- non-vacuity (test on a sample): 2 minutes (int32) as int64 milliseconds
+example : CastTyOk ⟨i64, ⟨1, 1000⟩⟩ ⟨i32, ⟨60, 1⟩⟩ ∧ cfD ⟨60, 1⟩ ⟨1, 1000⟩ = 1 := by decide +kernel
+example : convert ⟨i64, ⟨1, 1000⟩⟩ ⟨i32, ⟨60, 1⟩⟩ (-2) = .ok (-120000) := by
+  rw [(convert_exact _ _ (by decide +kernel) (by decide +kernel) _ (by decide) (by decide +kernel)).1]
+  decide +kernel
+
 /-- `operator<` compares the exact values. -/
 theorem lt_eq (a b : DurTy) (h : PairTyOk a b) (x y : Int) (hin : PairIn a b x y) :
     lt a b x y = .ok (Spec.lt a.per.toRat b.per.toRat x y) := by
@@ -167,10 +196,11 @@ theorem sub_exact (a b : DurTy) (h : PairTyOk a b) (x y : Int) (hin : PairIn a b
 
 /-- `floor<To>(d)` is the greatest integer not above the exact quotient `c · p / q`, also for negative counts.
     `hcmp`: the comparison `t > d` converts `d` and the truncated result to their common type; `hstep`: `t - 1` is a value
-    of `To::rep`. -/
+    of `To::rep` whenever the step is taken (`t > d`). -/
 theorem floor_eq (dst frm : DurTy) (h : CastTyOk dst frm) (hp : PairTyOk frm dst) (c : Int) (hin : CastIn dst frm c)
     (hcmp : PairIn frm dst c (Spec.cast frm.per.toRat dst.per.toRat c))
-    (hstep : dst.rep.inR (Spec.cast frm.per.toRat dst.per.toRat c + -1) = true) :
+    (hstep : Spec.val frm.per.toRat c / dst.per.toRat < ((Spec.cast frm.per.toRat dst.per.toRat c : Int) : ℚ) →
+      dst.rep.inR (Spec.cast frm.per.toRat dst.per.toRat c + -1) = true) :
     floorTo dst frm c = .ok (Spec.floor frm.per.toRat dst.per.toRat c) := by
   unfold floorTo
   rw [floorCtx_eq dst frm h hp]
@@ -180,7 +210,8 @@ theorem floor_eq (dst frm : DurTy) (h : CastTyOk dst frm) (hp : PairTyOk frm dst
 /-- `ceil<To>(d)` is the least integer not below the exact quotient. -/
 theorem ceil_eq (dst frm : DurTy) (h : CastTyOk dst frm) (hp : PairTyOk dst frm) (c : Int) (hin : CastIn dst frm c)
     (hcmp : PairIn dst frm (Spec.cast frm.per.toRat dst.per.toRat c) c)
-    (hstep : dst.rep.inR (Spec.cast frm.per.toRat dst.per.toRat c + 1) = true) :
+    (hstep : ((Spec.cast frm.per.toRat dst.per.toRat c : Int) : ℚ) < Spec.val frm.per.toRat c / dst.per.toRat →
+      dst.rep.inR (Spec.cast frm.per.toRat dst.per.toRat c + 1) = true) :
     ceilTo dst frm c = .ok (Spec.ceil frm.per.toRat dst.per.toRat c) := by
   have hQ := toRat_pos dst.per h.2.2.2.1
   have hcast := castCore_spec dst frm h c hin
@@ -200,7 +231,7 @@ theorem ceil_eq (dst frm : DurTy) (h : CastTyOk dst frm) (hp : PairTyOk dst frm)
   · have hx' : ((Spec.trunc (Spec.val frm.per.toRat c / dst.per.toRat) : Int) : ℚ) < Spec.val frm.per.toRat c / dst.per.toRat := hx
     rw [if_pos hx']
     simp only [hx, decide_true, if_true]
-    rw [step1_eq dst h.1 _ _ hstep]
+    rw [step1_eq dst h.1 _ _ (hstep hx)]
     rfl
   · have hx' : ¬ ((Spec.trunc (Spec.val frm.per.toRat c / dst.per.toRat) : Int) : ℚ) < Spec.val frm.per.toRat c / dst.per.toRat := hx
     rw [if_neg hx']
@@ -264,7 +295,7 @@ theorem round_eq (dst frm : DurTy) (h : RoundTyOk dst frm) (c : Int) (hin : Roun
       pairCtx_eq _ _ hhl.1 hhl.2.1 hhl.2.2.1 hhl.2.2.2.1 hhl.2.2.2.2]
     rfl
   -- run-time steps
-  have s1 := floorCore_spec dst frm hct hfd c i1 i2 i3
+  have s1 := floorCore_spec dst frm hct hfd c i1 i2 (fun _ => i3)
   have h1r : dst.rep.inR 1 = true := by
     obtain ⟨hs, h1, h2⟩ := hrd
     rw [inR_iff]; unfold ITy.min ITy.max; simp only [hs, if_true]
@@ -378,6 +409,26 @@ theorem neg_eq (t : DurTy) (hr : RepOk t.rep) (c : Int) (hn : t.rep.inR (-c) = t
   rw [repOk_promote hr, arith_ok _ (repOk_w hr) _ hn]
   simp only [bind, Except.bind, conv_of_inR _ (repOk_w hr) _ hn]
 
+/-- unary `+`: the conversion to `common_type_t<duration>` (the same representation, the period in lowest terms) keeps the count. -/
+theorem pos_eq (t : DurTy) (hr : RepOk t.rep) (hp : PerOk t.per) (hco : Coprime t.per) (hdiv : DivOk t.per t.per)
+    (c : Int) (hc : t.rep.inR c = true) : pos t c = .ok c := by
+  have hl : ((Int.lcm t.per.den t.per.den : Nat) : Int) ≤ imax.max := by
+    rw [Int.lcm_self]; have := hp.2.1; have := hp.2.2.2; omega
+  have hctx : posCtx t = .ok ⟨t.rep, imax, ⟨1, 1⟩⟩ := by
+    unfold posCtx
+    rw [commonTy_eq t t hp hp hl]
+    simp only [bind, Except.bind, cdTy_self t hp hco]
+    rw [castCtx_eq t t hr hr hp hp hdiv, (cf_self _ hp).1, (cf_self _ hp).2]
+  unfold pos
+  rw [hctx]
+  simp only [bind, Except.bind]
+  have := convertCore_eq t.rep hr 1 (by decide) (by decide) c (repOk_sub hr c hc) (by rwa [Int.mul_one])
+  rwa [Int.mul_one] at this
+
+-- non-vacuity (test on a sample)
+example : pos ⟨i32, ⟨1001, 30000⟩⟩ (-2147483648) = .ok (-2147483648) :=
+  pos_eq _ (by decide) (by decide) (by decide +kernel) (by decide) _ (by decide)
+
 /-- `+=`, `++` (duration and time_point): exact sum when representable -/
 theorem addAssign_eq (t : DurTy) (hr : RepOk t.rep) (c d : Int) (h : t.rep.inR (c + d) = true) :
     addAssign t c d = .ok (c + d) := by
@@ -398,6 +449,36 @@ theorem mulAssign_eq (t : DurTy) (hr : RepOk t.rep) (c d : Int) (h : t.rep.inR (
   unfold mulAssign
   rw [repOk_promote hr, arith_ok _ (repOk_w hr) _ h]
   simp only [bind, Except.bind, conv_of_inR _ (repOk_w hr) _ h]
+
+/-- `/=` by a tick count is `duration / rep` on the representation of the duration itself. -/
+theorem divAssign_eq (t : DurTy) (hr : RepOk t.rep) (hp : PerOk t.per) (c d : Int) (hc : t.rep.inR c = true)
+    (hd : t.rep.inR d = true) (hd0 : d ≠ 0) (hex : ¬ (c = t.rep.min ∧ d = -1)) :
+    divAssign t c d = .ok (Spec.divRep t.per.toRat c d) := by
+  have hq := tdiv_inR _ (repOk_w hr) _ _ hc hd hd0 (fun hh => hex ⟨hh.2.1, hh.2.2⟩)
+  unfold divAssign
+  rw [repOk_promote hr, cdiv_ok _ _ _ hd0 hex]
+  simp only [bind, Except.bind, spec_divRep _ (toRat_pos _ hp) _ _ hd0]
+  exact congrArg Except.ok (conv_of_inR _ (repOk_w hr) _ hq)
+
+-- non-vacuity (test on a sample)
+example : divAssign ⟨i32, ⟨1, 1000⟩⟩ (-7) 2 = .ok (-3) := by
+  rw [divAssign_eq _ (by decide) (by decide) _ _ (by decide) (by decide) (by decide) (by decide)]
+  decide +kernel
+
+/-- `%=` by a tick count (and by a duration of the same type: `_rep %= rhs.count()`). -/
+theorem modAssign_eq (t : DurTy) (hr : RepOk t.rep) (hp : PerOk t.per) (c d : Int) (hc : t.rep.inR c = true)
+    (hd0 : d ≠ 0) (hex : ¬ (c = t.rep.min ∧ d = -1)) :
+    modAssign t c d = .ok (Spec.modRep t.per.toRat c d) := by
+  have hm := tmod_inR _ c d hc
+  unfold modAssign
+  rw [repOk_promote hr, cmod_ok _ _ _ hd0 hex]
+  simp only [bind, Except.bind, spec_modRep _ (toRat_pos _ hp) _ _ hd0]
+  exact congrArg Except.ok (conv_of_inR _ (repOk_w hr) _ hm)
+
+-- non-vacuity (test on a sample)
+example : modAssign ⟨i32, ⟨1, 1000⟩⟩ (-7) 2 = .ok (-1) := by
+  rw [modAssign_eq _ (by decide) (by decide) _ _ (by decide) (by decide) (by decide)]
+  decide +kernel
 
 /-! ## duration / duration, duration % duration -/
 
@@ -484,6 +565,148 @@ theorem mod_exact (a b : DurTy) (h : PairTyOk a b) (x y : Int) (hin : PairIn a b
     ring
 
 
+/-! ## duration and a tick count: `d * s`, `s * d`, `d / s`, `d % s` -/
+
+/-- run-time precondition of `d * s`: the count and the scalar are values of their types and the exact product is
+    representable in `common_type_t<Rep1, Rep2>` -/
+def MulIn (d : DurTy) (rs : ITy) (c s : Int) : Prop :=
+  d.rep.inR c = true ∧ rs.inR s = true ∧ (ITy.common d.rep rs).inR (c * s) = true
+instance (d : DurTy) (rs : ITy) (c s : Int) : Decidable (MulIn d rs c s) := by unfold MulIn; infer_instance
+
+/-- run-time precondition of `d / s` and `d % s`: the divisor is non-zero and the quotient is not `min / -1` -/
+def DivIn (d : DurTy) (rs : ITy) (c s : Int) : Prop :=
+  d.rep.inR c = true ∧ rs.inR s = true ∧ s ≠ 0 ∧ ¬ (c = (ITy.common d.rep rs).min ∧ s = -1)
+instance (d : DurTy) (rs : ITy) (c s : Int) : Decidable (DivIn d rs c s) := by unfold DivIn; infer_instance
+
+/-- `duration * rep` and `rep * duration`: no overflow, and the result is `s` times as long: `c · s` ticks of the same
+    period, in the representation `common_type_t<Rep1, Rep2>`. -/
+theorem mulRep_exact (d : DurTy) (rs : ITy) (h : ScalarTyOk d rs) (c s : Int) (hin : MulIn d rs c s) :
+    mulRep d rs c s = .ok (Spec.mulRep d.per.toRat c s) ∧ repMul rs d s c = .ok (Spec.mulRep d.per.toRat c s) ∧
+      Spec.val d.per.toRat (Spec.mulRep d.per.toRat c s) = Spec.val d.per.toRat c * s := by
+  obtain ⟨hc, hs, hprod⟩ := hin
+  obtain ⟨o1, o2, o3, o4⟩ := scalar_operands d rs h c s hc hs
+  have hcr := (common_repOk h.1 h.2.1).1
+  have hpos := toRat_pos d.per h.2.2.1
+  have key : mulRep d rs c s = .ok (Spec.mulRep d.per.toRat c s) := by
+    unfold mulRep
+    rw [scalarCtx_eq d rs h]
+    simp only [bind, Except.bind, mulRepCore, o1, o2, o3, o4]
+    rw [arith_ok _ (repOk_w hcr) _ hprod]
+    simp only [spec_mulRep _ hpos]
+    exact congrArg Except.ok (conv_of_inR _ (repOk_w hcr) _ hprod)
+  refine ⟨key, key, ?_⟩
+  rw [spec_mulRep _ hpos]
+  unfold Spec.val; push_cast; ring
+
+-- non-vacuity (kernel-evaluated samples: tests): int32 ticks of 1001/30000 s times an int64 scalar -> int64 ticks
+example : ScalarTyOk ⟨i32, ⟨1001, 30000⟩⟩ i64 ∧ MulIn ⟨i32, ⟨1001, 30000⟩⟩ i64 (-2147483647) 3 := by decide +kernel
+example : mulRep ⟨i32, ⟨1001, 30000⟩⟩ i64 (-2147483647) 3 = .ok (-6442450941) := by
+  rw [(mulRep_exact _ _ (by decide +kernel) _ _ (by decide +kernel)).1]
+  decide +kernel
+
+/-- `duration / rep`: no trap, and the result is the value divided by `s`, truncated toward zero to whole ticks. -/
+theorem divRep_exact (d : DurTy) (rs : ITy) (h : ScalarTyOk d rs) (c s : Int) (hin : DivIn d rs c s) :
+    divRep d rs c s = .ok (Spec.divRep d.per.toRat c s) := by
+  obtain ⟨hc, hs, hs0, hex⟩ := hin
+  obtain ⟨o1, o2, o3, o4⟩ := scalar_operands d rs h c s hc hs
+  have hcr := (common_repOk h.1 h.2.1).1
+  have hpos := toRat_pos d.per h.2.2.1
+  have hc' := inR_sub_common h.1 h.2.1 c hc
+  have hs' := inR_sub_common_r h.1 h.2.1 s hs
+  have hq := tdiv_inR _ (repOk_w hcr) _ _ hc' hs' hs0 (fun hh => hex ⟨hh.2.1, hh.2.2⟩)
+  unfold divRep
+  rw [scalarCtx_eq d rs h]
+  simp only [bind, Except.bind, divRepCore, o1, o2, o3, o4]
+  rw [cdiv_ok _ _ _ hs0 hex]
+  simp only [spec_divRep _ hpos _ _ hs0]
+  exact congrArg Except.ok (conv_of_inR _ (repOk_w hcr) _ hq)
+
+-- non-vacuity (test on a sample): -7 ticks of 5/7 s (int64) / int32 2
+example : ScalarTyOk ⟨i64, ⟨5, 7⟩⟩ i32 ∧ DivIn ⟨i64, ⟨5, 7⟩⟩ i32 (-7) 2 := by decide +kernel
+example : divRep ⟨i64, ⟨5, 7⟩⟩ i32 (-7) 2 = .ok (-3) := by
+  rw [divRep_exact _ _ (by decide +kernel) _ _ (by decide +kernel)]
+  decide +kernel
+
+/-- `duration % rep`: no trap, and the result is exactly what the division leaves over: `d - (d / s) · s`. -/
+theorem modRep_exact (d : DurTy) (rs : ITy) (h : ScalarTyOk d rs) (c s : Int) (hin : DivIn d rs c s) :
+    modRep d rs c s = .ok (Spec.modRep d.per.toRat c s) ∧
+      Spec.val d.per.toRat (Spec.modRep d.per.toRat c s) =
+        Spec.val d.per.toRat c - Spec.val d.per.toRat (Spec.divRep d.per.toRat c s) * s := by
+  obtain ⟨hc, hs, hs0, hex⟩ := hin
+  obtain ⟨o1, o2, o3, o4⟩ := scalar_operands d rs h c s hc hs
+  have hcr := (common_repOk h.1 h.2.1).1
+  have hpos := toRat_pos d.per h.2.2.1
+  have hc' := inR_sub_common h.1 h.2.1 c hc
+  have hm := tmod_inR _ c s hc'
+  constructor
+  · unfold modRep
+    rw [scalarCtx_eq d rs h]
+    simp only [bind, Except.bind, modRepCore, o1, o2, o3, o4]
+    rw [cmod_ok _ _ _ hs0 hex]
+    simp only [spec_modRep _ hpos _ _ hs0]
+    exact congrArg Except.ok (conv_of_inR _ (repOk_w hcr) _ hm)
+  · rw [spec_modRep _ hpos _ _ hs0, spec_divRep _ hpos _ _ hs0]
+    have hdef : Int.tmod c s = c - s * Int.tdiv c s := by
+      have := Int.tmod_add_mul_tdiv c s
+      omega
+    rw [hdef]
+    unfold Spec.val; push_cast; ring
+
+-- non-vacuity (test on a sample)
+example : modRep ⟨i64, ⟨5, 7⟩⟩ i32 (-7) 2 = .ok (-1) := by
+  rw [(modRep_exact _ _ (by decide +kernel) _ _ (by decide +kernel)).1]
+  decide +kernel
+
+/-! ## time_point and duration -/
+
+/-- `time_point + duration` and `duration + time_point`: no overflow, and the distance of the result from the epoch is
+    exactly the sum of the two values (in ticks of the common period). -/
+theorem tpPlus_exact (a b : DurTy) (h : PairTyOk a b) (x y : Int) (hin : PairIn a b x y)
+    (hsum : (cdTy a b).rep.inR (x * mulL a.per b.per + y * mulR a.per b.per) = true) :
+    ∃ r, tpPlus a b x y = .ok r ∧ durPlusTp b a y x = .ok r ∧
+      (r : ℚ) * (cdTy a b).per.toRat = Spec.val a.per.toRat x + Spec.val b.per.toRat y := by
+  obtain ⟨r, h1, h2⟩ := add_exact a b h x y hin hsum
+  exact ⟨r, h1, h1, h2⟩
+
+-- non-vacuity (tests on a sample): 2 minutes (int32) after the epoch plus / minus 5 thirds of a second (int64): 365 / 355 thirds
+example : PairTyOk ⟨i32, ⟨60, 1⟩⟩ ⟨i64, ⟨1, 3⟩⟩ ∧ PairIn ⟨i32, ⟨60, 1⟩⟩ ⟨i64, ⟨1, 3⟩⟩ 2 5 ∧
+    (cdTy ⟨i32, ⟨60, 1⟩⟩ ⟨i64, ⟨1, 3⟩⟩).rep.inR (2 * mulL ⟨60, 1⟩ ⟨1, 3⟩ + 5 * mulR ⟨60, 1⟩ ⟨1, 3⟩) = true ∧
+    (cdTy ⟨i32, ⟨60, 1⟩⟩ ⟨i64, ⟨1, 3⟩⟩).rep.inR (2 * mulL ⟨60, 1⟩ ⟨1, 3⟩ - 5 * mulR ⟨60, 1⟩ ⟨1, 3⟩) = true := by decide +kernel
+example : ∃ r, tpPlus ⟨i32, ⟨60, 1⟩⟩ ⟨i64, ⟨1, 3⟩⟩ 2 5 = .ok r ∧ (r : ℚ) * (1 / 3) = 2 * 60 + 5 * (1 / 3) := by
+  obtain ⟨r, h1, _, h2⟩ := tpPlus_exact ⟨i32, ⟨60, 1⟩⟩ ⟨i64, ⟨1, 3⟩⟩ (by decide +kernel) 2 5 (by decide +kernel) (by decide +kernel)
+  refine ⟨r, h1, ?_⟩
+  have e : (cdTy ⟨i32, ⟨60, 1⟩⟩ ⟨i64, ⟨1, 3⟩⟩).per.toRat = 1 / 3 := by
+    have : (cdTy ⟨i32, ⟨60, 1⟩⟩ ⟨i64, ⟨1, 3⟩⟩).per = ⟨1, 3⟩ := by decide +kernel
+    rw [this]; unfold Ratio.toRat; norm_num
+  rw [e] at h2
+  rw [h2]; unfold Spec.val Ratio.toRat; norm_num
+
+/-- `time_point - duration`: no overflow, exact difference. -/
+theorem tpMinus_exact (a b : DurTy) (h : PairTyOk a b) (x y : Int) (hin : PairIn a b x y)
+    (hdiff : (cdTy a b).rep.inR (x * mulL a.per b.per - y * mulR a.per b.per) = true) :
+    ∃ r, tpMinus a b x y = .ok r ∧
+      (r : ℚ) * (cdTy a b).per.toRat = Spec.val a.per.toRat x - Spec.val b.per.toRat y :=
+  sub_exact a b h x y hin hdiff
+
+example : ∃ r, tpMinus ⟨i32, ⟨60, 1⟩⟩ ⟨i64, ⟨1, 3⟩⟩ 2 5 = .ok r ∧ (r : ℚ) * (cdTy ⟨i32, ⟨60, 1⟩⟩ ⟨i64, ⟨1, 3⟩⟩).per.toRat = 2 * 60 - 5 * (1 / 3) := by
+  obtain ⟨r, h1, h2⟩ := tpMinus_exact ⟨i32, ⟨60, 1⟩⟩ ⟨i64, ⟨1, 3⟩⟩ (by decide +kernel) 2 5 (by decide +kernel) (by decide +kernel)
+  refine ⟨r, h1, ?_⟩
+  rw [h2]; unfold Spec.val Ratio.toRat; norm_num
+
+/-- `time_point - time_point`: the duration between the two points is exactly the difference of their distances from the
+    epoch. -/
+theorem tpDiff_exact (a b : DurTy) (h : PairTyOk a b) (x y : Int) (hin : PairIn a b x y)
+    (hdiff : (cdTy a b).rep.inR (x * mulL a.per b.per - y * mulR a.per b.per) = true) :
+    ∃ r, tpDiff a b x y = .ok r ∧
+      (r : ℚ) * (cdTy a b).per.toRat = Spec.val a.per.toRat x - Spec.val b.per.toRat y :=
+  sub_exact a b h x y hin hdiff
+
+example : ∃ r, tpDiff ⟨i32, ⟨60, 1⟩⟩ ⟨i64, ⟨1, 3⟩⟩ 2 5 = .ok r ∧ (r : ℚ) * (cdTy ⟨i32, ⟨60, 1⟩⟩ ⟨i64, ⟨1, 3⟩⟩).per.toRat = 2 * 60 - 5 * (1 / 3) := by
+  obtain ⟨r, h1, h2⟩ := tpDiff_exact ⟨i32, ⟨60, 1⟩⟩ ⟨i64, ⟨1, 3⟩⟩ (by decide +kernel) 2 5 (by decide +kernel) (by decide +kernel)
+  refine ⟨r, h1, ?_⟩
+  rw [h2]; unfold Spec.val Ratio.toRat; norm_num
+
+
 /-! ## non-vacuity of the hypotheses (kernel-evaluated on samples: tests, not proofs of anything general) -/
 
 /-- milliseconds (int32) and ticks of 1001/30000 s (int64): every static precondition used above holds -/
@@ -496,10 +719,10 @@ example : PairIn ⟨i64, ⟨1001, 30000⟩⟩ ⟨i32, ⟨1, 1000⟩⟩ (-7) (-23
 
 /-- the theorems instantiated there: floor = -234, ceil = -233, `-7 ticks < -233 ms` -/
 example : floorTo ⟨i32, ⟨1, 1000⟩⟩ ⟨i64, ⟨1001, 30000⟩⟩ (-7) = .ok (-234) := by
-  rw [floor_eq _ _ (by decide +kernel) (by decide +kernel) _ (by decide +kernel) (by decide +kernel) (by decide +kernel)]
+  rw [floor_eq _ _ (by decide +kernel) (by decide +kernel) _ (by decide +kernel) (by decide +kernel) (fun _ => by decide +kernel)]
   decide +kernel
 example : ceilTo ⟨i32, ⟨1, 1000⟩⟩ ⟨i64, ⟨1001, 30000⟩⟩ (-7) = .ok (-233) := by
-  rw [ceil_eq _ _ (by decide +kernel) (by decide +kernel) _ (by decide +kernel) (by decide +kernel) (by decide +kernel)]
+  rw [ceil_eq _ _ (by decide +kernel) (by decide +kernel) _ (by decide +kernel) (by decide +kernel) (fun _ => by decide +kernel)]
   decide +kernel
 example : lt ⟨i64, ⟨1001, 30000⟩⟩ ⟨i32, ⟨1, 1000⟩⟩ (-7) (-233) = .ok true := by
   rw [lt_eq _ _ (by decide +kernel) _ _ (by decide +kernel)]
